@@ -331,4 +331,236 @@ theorem deallocKeepsNext_double_free_witness :
       (runOuts {} Alloc.init (ops ++ [.alloc true, .alloc true, .alloc true])).2 = [.page 1, .ok, .ok, .page 1, .page 2, .page 3] := by
   decide
 
+/-! ## B. the verified checker -/
+
+open FileDump
+
+/-- exactly one of three -/
+def ExactlyOne (a b c : Prop) : Prop := (a ∧ ¬b ∧ ¬c) ∨ (¬a ∧ b ∧ ¬c) ∨ (¬a ∧ ¬b ∧ c)
+
+/-- `ts` are the trees read off the catalog roots, one per root, in the order of the roots: below every root the page graph
+    is a tree of B-tree pages (no cycle: the extraction is fuel bounded and succeeded) -/
+def TreesOf (f : FileDump) (ts : List T) : Prop :=
+  AllRel (fun r t => treeOf (f.dumpOf r) = some t) f.roots ts
+
+/-- `p` is a node of one of the trees -/
+def TreeNode (ts : List T) (p : Nat) : Prop := ∃ t ∈ ts, p ∈ t.ids
+
+/-- the overflow chains of the cells stored in the nodes of the trees: one entry per stored cell (page by page, slot by slot;
+    `[]` for a cell without a chain) -/
+def cellChains (f : FileDump) (ts : List T) : List (List Nat) := chainsOf Defects.none f (ts.map T.ids).flatten
+
+/-- `p` is a link of the overflow chain of some stored cell -/
+def OverflowLink (f : FileDump) (ts : List T) (p : Nat) : Prop := ∃ c ∈ cellChains f ts, p ∈ c
+
+/-- the free list: starts at `first_free`, runs through overflow-shaped pages, ends at a page without successor, visits no
+    page twice, and its last page is `last_free` (both 0 when the list is empty) -/
+structure FreeListOk (f : FileDump) (fl : List Nat) : Prop where
+  path : LinkPath f.link f.firstFree fl
+  acyclic : fl.Nodup
+  tail : lastD fl = f.lastFree
+
+/-- in a well-formed free list the page recorded as `last_free` has `next = none` -/
+theorem FreeListOk.tail_next_none {f : FileDump} {fl : List Nat} (h : FreeListOk f fl) (hne : fl ≠ []) :
+    f.link f.lastFree = some 0 := by
+  rw [← h.tail]; exact linkPath_last_none h.path hne
+
+/-- … and an empty free list is recorded as (none, none) -/
+theorem FreeListOk.empty_heads {f : FileDump} (h : FreeListOk f []) : f.firstFree = 0 ∧ f.lastFree = 0 :=
+  ⟨h.path, by rw [← h.tail]; rfl⟩
+
+/-- What an accepted dump establishes. -/
+structure Ownership (f : FileDump) (ts : List T) (fl : List Nat) : Prop where
+  trees : TreesOf f ts
+  free : FreeListOk f fl
+  /-- every page other than page zero has exactly one kind of owner -/
+  exactlyOne : ∀ p, 0 < p → p < f.total → ExactlyOne (TreeNode ts p) (OverflowLink f ts p) (p ∈ fl)
+  /-- nothing outside 1 … total-1 is a node, a chain link or a free page -/
+  inFile : ∀ p, TreeNode ts p ∨ OverflowLink f ts p ∨ p ∈ fl → 0 < p ∧ p < f.total
+  /-- a node belongs to exactly one tree … -/
+  oneTree : ∀ (i j : Nat) (hi : i < ts.length) (hj : j < ts.length) (p : Nat), p ∈ ts[i].ids → p ∈ ts[j].ids → i = j
+  /-- … and occurs once in it (no page is reached twice inside a tree) -/
+  treeNodup : ∀ t ∈ ts, t.ids.Nodup
+  /-- a chain link belongs to the chain of exactly one stored cell … -/
+  oneCell : ∀ (i j : Nat) (hi : i < (cellChains f ts).length) (hj : j < (cellChains f ts).length) (p : Nat),
+    p ∈ (cellChains f ts)[i] → p ∈ (cellChains f ts)[j] → i = j
+  /-- … occurs once in it, and every chain is a list of overflow-shaped pages linked by `next` and ending with `next = none` -/
+  chains : ∀ c ∈ cellChains f ts, c.Nodup ∧ LinkPath f.link (c.headD 0) c
+
+theorem exactlyOne_of_append {a b c : List Nat} (h : (a ++ b ++ c).Nodup) (p : Nat) (hp : p ∈ a ++ b ++ c) :
+    ExactlyOne (p ∈ a) (p ∈ b) (p ∈ c) := by
+  rw [List.nodup_append, List.nodup_append] at h
+  obtain ⟨⟨_, _, hab⟩, _, habc⟩ := h
+  simp only [List.mem_append] at hp habc
+  rcases hp with (ha | hb) | hc
+  · exact Or.inl ⟨ha, fun hb => hab p ha p hb rfl, fun hc => habc p (Or.inl ha) p hc rfl⟩
+  · exact Or.inr (Or.inl ⟨fun ha => hab p ha p hb rfl, hb, fun hc => habc p (Or.inr hb) p hc rfl⟩)
+  · exact Or.inr (Or.inr ⟨fun ha => habc p (Or.inl ha) p hc rfl, fun hb => habc p (Or.inr hb) p hc rfl, hc⟩)
+
+/-- **Soundness of the checker.** If `checkOwnership` accepts a dump then: below every catalog root the page graph is a
+    tree; every page id in 1 … total-1 is exactly one of (a) a node of a tree — of exactly one tree, reached exactly once —,
+    (b) a link of an overflow chain — of the chain of exactly one stored cell, exactly once, the chain being properly linked
+    and terminated —, (c) a member of the free list; the free list starts at `first_free`, is acyclic, ends at `last_free`,
+    whose `next` is none; no page is both free and used; and no page is unreachable ("lost"). -/
+theorem checkOwnership_sound (f : FileDump) (h : checkOwnership f = true) :
+    ∃ ts fl, f.trees = some ts ∧ f.freeWalk = some fl ∧ Ownership f ts fl := by
+  unfold checkOwnership checkWith at h
+  cases hts : f.trees with
+  | none => simp [hts] at h
+  | some ts =>
+    cases hfl : f.freeWalk with
+    | none => simp [hts, hfl] at h
+    | some fl =>
+      simp only [hts, hfl, Bool.and_eq_true, decide_eq_true_eq, beq_iff_eq] at h
+      obtain ⟨⟨hchains, htail⟩, hsort⟩ := h
+      refine ⟨ts, fl, rfl, rfl, ?_⟩
+      -- the owners are a permutation of 1 … total-1
+      have hperm : ((ts.map T.ids).flatten ++ (cellChains f ts).flatten ++ fl).Perm f.allPages := by
+        have := msort_perm ((ts.map T.ids).flatten ++ (chainsOf Defects.none f (ts.map T.ids).flatten).flatten ++ fl).length
+          ((ts.map T.ids).flatten ++ (chainsOf Defects.none f (ts.map T.ids).flatten).flatten ++ fl)
+        rw [hsort] at this
+        exact this.symm
+      have hnd : ((ts.map T.ids).flatten ++ (cellChains f ts).flatten ++ fl).Nodup :=
+        hperm.nodup_iff.mpr (List.nodup_range' (step := 1))
+      have hmem : ∀ p, p ∈ (ts.map T.ids).flatten ++ (cellChains f ts).flatten ++ fl ↔ (0 < p ∧ p < f.total) := by
+        intro p
+        rw [hperm.mem_iff, allPages, List.mem_range'_1]
+        omega
+      have hnd' := hnd
+      rw [List.nodup_append, List.nodup_append] at hnd'
+      obtain ⟨⟨hndNodes, hndChains, _⟩, hndFree, _⟩ := hnd'
+      have hnode : ∀ p, TreeNode ts p ↔ p ∈ (ts.map T.ids).flatten := by
+        intro p
+        simp only [TreeNode, List.mem_flatten, List.mem_map]
+        constructor
+        · rintro ⟨t, ht, hp⟩; exact ⟨t.ids, ⟨t, ht, rfl⟩, hp⟩
+        · rintro ⟨l, ⟨t, ht, rfl⟩, hp⟩; exact ⟨t, ht, hp⟩
+      have hlink : ∀ p, OverflowLink f ts p ↔ p ∈ (cellChains f ts).flatten := by
+        intro p
+        simp only [OverflowLink, List.mem_flatten]
+      have hzero : ∀ c ∈ cellChains f ts, ∀ x ∈ c, x ≠ 0 := by
+        intro c hc x hx hx0
+        have : x ∈ (ts.map T.ids).flatten ++ (cellChains f ts).flatten ++ fl := by
+          simp only [List.mem_append, List.mem_flatten]
+          exact Or.inl (Or.inr ⟨c, hc, hx⟩)
+        have := (hmem x).mp this
+        omega
+      refine ⟨?_, ⟨walkFree_path hfl, hndFree, htail⟩, ?_, ?_, ?_, ?_, ?_, ?_⟩
+      · exact allSome_allRel (fun r => treeOf (f.dumpOf r)) hts
+      · intro p hp0 hpt
+        have hp := (hmem p).mpr ⟨hp0, hpt⟩
+        have := exactlyOne_of_append hnd p hp
+        simpa only [hnode, hlink] using this
+      · intro p hp
+        apply (hmem p).mp
+        simp only [List.mem_append]
+        rcases hp with hp | hp | hp
+        · exact Or.inl (Or.inl ((hnode p).mp hp))
+        · exact Or.inl (Or.inr ((hlink p).mp hp))
+        · exact Or.inr hp
+      · intro i j hi hj p hpi hpj
+        have := (flatten_nodup_index hndNodes).1 i j (by simpa using hi) (by simpa using hj) p
+          (by simpa using hpi) (by simpa using hpj)
+        exact this
+      · intro t ht
+        exact (flatten_nodup_index hndNodes).2 t.ids (List.mem_map.mpr ⟨t, ht, rfl⟩)
+      · exact (flatten_nodup_index hndChains).1
+      · intro c hc
+        refine ⟨(flatten_nodup_index hndChains).2 c hc, ?_⟩
+        have hl := List.all_eq_true.mp hchains c hc
+        exact chainLinked_path hl (hzero c hc)
+
+/-- No page is both free and used, and no page is lost — the two halves of `exactlyOne`, spelled out. -/
+theorem accepted_dump_no_overlap_no_loss (f : FileDump) (h : checkOwnership f = true) :
+    ∃ ts fl, Ownership f ts fl ∧
+      (∀ p ∈ fl, ¬ TreeNode ts p ∧ ¬ OverflowLink f ts p) ∧
+      (∀ p, 0 < p → p < f.total → TreeNode ts p ∨ OverflowLink f ts p ∨ p ∈ fl) := by
+  obtain ⟨ts, fl, _, _, ho⟩ := checkOwnership_sound f h
+  refine ⟨ts, fl, ho, ?_, ?_⟩
+  · intro p hp
+    have hin := ho.inFile p (Or.inr (Or.inr hp))
+    rcases ho.exactlyOne p hin.1 hin.2 with h1 | h1 | h1
+    · exact absurd hp h1.2.2
+    · exact absurd hp h1.2.2
+    · exact ⟨h1.1, h1.2.1⟩
+  · intro p hp0 hpt
+    rcases ho.exactlyOne p hp0 hpt with h1 | h1 | h1
+    · exact Or.inl h1.1
+    · exact Or.inr (Or.inl h1.2.1)
+    · exact Or.inr (Or.inr h1.2.2)
+
+/-- The per-tree part through C10: a tree of an accepted file that `checkTree` accepts as well is a correct ordered map
+    (sorted contents, scan = contents, lookups right for every key, uniform depth, levels linked) and it is the tree the
+    ownership statement talks about. -/
+theorem accepted_tree_checked (f : FileDump) (ts : List T) (fl : List Nat) (ho : Ownership f ts fl) (i : Nat)
+    (hi : i < f.roots.length) (hc : checkTree (f.dumpOf f.roots[i]) = true) :
+    ∃ (hj : i < ts.length), treeOf (f.dumpOf f.roots[i]) = some ts[i] ∧ ts[i].ids.Nodup ∧
+      C10.Sorted (ts[i].toList) ∧ (∀ k, lookup (f.dumpOf f.roots[i]) k = alookup k ts[i].toList) ∧ C10.UniformDepth ts[i] := by
+  have hlen := ho.trees.length_eq
+  have hj : i < ts.length := by rw [← hlen]; exact hi
+  have hrel := ho.trees.get i hi hj
+  obtain ⟨t, ht, hlist, hsorted, _, hlook, hdepth, _, _, hnd, _⟩ := C10.checkTree_sound _ hc
+  have : t = ts[i] := by rw [hrel] at ht; exact (Option.some.inj ht).symm
+  subst this
+  refine ⟨hj, hrel, hnd, ?_, ?_, hdepth⟩
+  · rw [← hlist]; exact hsorted
+  · intro k; rw [← hlist]; exact hlook k
+
+/-! ### the checker is not vacuous -/
+
+/-- A small file: catalog-less, one tree rooted at page 1 (an interior page with leaves 2 and 3), the second cell of leaf 3
+    has a two-page overflow chain 4 → 5, pages 6 → 7 are free. -/
+def exampleFile : FileDump :=
+  { total := 8, firstFree := 6, lastFree := 7,
+    link := fun i => if i = 4 then some 5 else if i = 5 then some 0 else if i = 6 then some 7 else if i = 7 then some 0 else none,
+    page := fun i =>
+      if i = 1 then some (.interior 0 0 3 [{ left := 2, key := 10 }])
+      else if i = 2 then some (.leaf 0 3 [{ key := 3, val := (8, 1) }])
+      else if i = 3 then some (.leaf 2 0 [{ key := 10, val := (5, 2) }, { key := 12, val := (9000, 9), chain := [4, 5] }])
+      else none,
+    roots := [1] }
+
+example : checkOwnership exampleFile = true := by decide
+
+/-- a page that nobody owns (page 7 dropped from the free list: the tail now is 6) is rejected -/
+theorem checkOwnership_rejects_lost_page :
+    checkOwnership
+      { exampleFile with
+        lastFree := 6
+        link := fun i => if i = 4 then some 5 else if i = 5 then some 0 else if i = 6 then some 0 else if i = 7 then some 0 else none } = false := by
+  decide
+
+/-- a page that is both free and a chain link is rejected -/
+theorem checkOwnership_rejects_free_and_used :
+    checkOwnership
+      { exampleFile with
+        link := fun i => if i = 4 then some 5 else if i = 5 then some 0 else if i = 6 then some 7 else if i = 7 then some 5 else none
+        lastFree := 5 } = false := by
+  decide
+
+/-- a cyclic free list is rejected -/
+theorem checkOwnership_rejects_cycle :
+    checkOwnership
+      { exampleFile with
+        link := fun i => if i = 4 then some 5 else if i = 5 then some 0 else if i = 6 then some 7 else if i = 7 then some 6 else none } = false := by
+  decide
+
+/-- a wrong recorded tail is rejected -/
+theorem checkOwnership_rejects_wrong_tail : checkOwnership { exampleFile with lastFree := 6 } = false := by decide
+
+/-- **KF-C11-divider-shares-chain** (the shape the rebalancer produces: the divider in the interior page is a copy of the leaf
+    cell, overflow pointer included): the chain 4 → 5 is referenced by two cells, the checker rejects; the judge's tolerance
+    flag `dividerSharesChain` (which does not count the chains of dividers) accepts exactly this. -/
+def sharedDividerFile : FileDump :=
+  { exampleFile with
+    page := fun i =>
+      if i = 1 then some (.interior 0 0 3 [{ left := 2, key := 10, chain := [4, 5] }])
+      else if i = 2 then some (.leaf 0 3 [{ key := 3, val := (8, 1) }])
+      else if i = 3 then some (.leaf 2 0 [{ key := 10, val := (9000, 9), chain := [4, 5] }])
+      else none }
+
+theorem dividerSharesChain_witness :
+    checkOwnership sharedDividerFile = false ∧ checkWith { dividerSharesChain := true } sharedDividerFile = true := by
+  decide
+
 end AxVerif.C11
